@@ -120,6 +120,7 @@ func replaceLemma(idx int, p string) {
 				body = m.Body
 			}
 			exp := refEncodeMsg(0, 4, r.Dst, r.Nonce, r.Sender, r.Recipient, m.Caller, body)
+			verifrt.Assert(p+"/replace/requested-fields-fit-the-layout", verifrt.All(len(m.Caller) == 32, verifrt.Implies(isDeposit, len(m.Recipient) == 32)))
 			verifrt.Assert(p+"/replace/message-bytes", bytes.Equal(sent.Message, exp))
 			// the sender of a replacement is the submitter, or the module for a deposit replacement
 			if isDeposit {
